@@ -200,7 +200,7 @@ func body(c *nd.Ctx) nd.Result {
 			i := i
 			vs.GoNamed(fmt.Sprintf("closer%d", i+1), false, func() {
 				closeErrs[i] = env.S.Close()
-				closeReturned++
+				vs.Atomically(func() { closeReturned++ })
 			})
 		}
 		if peer == "silent-until-close-deadline" {
